@@ -17,7 +17,7 @@ THEOREMS = ["edge_shared_by_two", "split_inv", "swap_inv", "collapse_inv", "rena
             "split_checks_sound", "swap_checks_sound",
             "merge_refines", "merge_refines_manifold", "concrete_merge_inv", "merge_checks_sound", "merge_checked",
             "merge_keeps_index", "split_keeps_index", "swap_keeps_index", "index_sound_of_complete", "merge_nonvacuous",
-            "merge_guard_iff", "canBeMerged_sound", "canBeMerged_defined", "sortspec_check_sound", "merge_executed_refines",
+            "merge_guard_iff", "canBeMerged_sound", "canBeMerged_defined", "sortspec_check_sound", "sortNat_sorted", "merge_executed_refines",
             "split_vmc", "swap_vmc", "collapse_vmc", "rename_vmc", "step_vmc", "reach_vertex_manifold",
             "vertex_manifold_iff_link_connected", "concrete_split_vmc", "concrete_swap_vmc", "concrete_merge_vmc",
             "merge_executed_invariants", "merge_defined", "merge_checked_defined", "delete_face_defined"]
